@@ -344,6 +344,36 @@ func checkC06(r *Run) {
 			}
 		})
 	}
+	// … then its table entry is deleted: a completed request's tag becomes reusable (otherwise every reuse — after the
+	// client's tags wrap — is refused as a duplicate and never dispatched)
+	if nFwd == 1 {
+		okDel := false
+		var fwdSel *ssa.Select
+		eachInstr(csc.fn, func(in ssa.Instruction) {
+			if sel, ok := in.(*ssa.Select); ok && csc.in(sel.Block()) {
+				for _, st := range sel.States {
+					if st.Dir == types.SendOnly && st.Chan == csc.responses {
+						fwdSel = sel
+					}
+				}
+			}
+		})
+		eachInstr(csc.fn, func(in ssa.Instruction) {
+			c, ok := in.(*ssa.Call)
+			if !ok || fwdSel == nil {
+				return
+			}
+			if b, isB := c.Call.Value.(*ssa.Builtin); isB && b.Name() == "delete" && csc.tags(c.Call.Args[0]) && instrDominates(fwdSel, c) {
+				okDel = true
+			}
+		})
+		pos := sp.mainSel.Pos()
+		if fwdSel != nil {
+			pos = fwdSel.Pos()
+		}
+		r.Check(okDel, "forward-once", "serve: after the forward the completed request's entry is deleted from the tag table", pos,
+			"a completed request stays in the tag table: its tag can never be used again (the next request carrying it is answered 'duplicate tag' and never dispatched)")
+	}
 	r.Check(nFwd == 1, "forward-once", "serve: exactly one forward site in the completion branch", sp.mainSel.Pos(), fmt.Sprintf("%d forward sites", nFwd))
 	// (7) confinement
 	leak := ""
@@ -591,6 +621,8 @@ func checkC07(r *Run) {
 	// "no reply to the flushed request is ever sent after the acknowledgement": replies reach the writer only through
 	// the serve loop's table-guarded forward
 	c06OnlyServeSendsResponses(r, p, sp, "responses-owner")
+	// a Tflush frame is a frame like any other: it is the serve loop's alone once handed over
+	checkFreshFrame(r, p.Fn("p9p:(*conn).read"), "fresh-frame")
 	if !c07FlushClause(r, p, sp) {
 		return
 	}
@@ -985,6 +1017,12 @@ func handlerRunsUnderRequestContext(r *Run, sp *serveParts, rule string) {
 	r.Check(ok, rule, "handler: Handle runs under the request's own cancellable context", sp.handle.Pos(),
 		"the handler is invoked with a context other than the per-request one whose cancel func is in the tag table: a flush (or the shutdown) cancels a context the handler is not listening to")
 	r.Floor(rule, len(ctxVals), 1, "per-request context.WithCancel in serve")
+	// the request contexts are siblings — children of the connection's context — not a chain: cancelling one
+	// request (a flush) must not cancel the requests that come after it
+	for _, wc := range findCalls(sp.serve, "context.WithCancel", "context.WithTimeout", "context.WithDeadline") {
+		r.Check(ctxProv(wc.Call.Args[0], 0) == "field:conn.ctx", rule, "serve: each request context is a child of the connection's context", wc.Pos(),
+			"a request context is derived from something other than the connection's context (e.g. the previous request's): flushing one request cancels every later one, whose replies are then dropped")
+	}
 }
 
 // delegatedClause: a dispatcher clause that hands the request to a helper of the package
